@@ -201,7 +201,7 @@ func rsScenario(p rsParams) func() {
 // explorer (adversary thread, in a script-chosen round of {activity, timers fire}) - in particular between
 // two steps of a reconnect attempt. Once the node is up and every timer has fired, a probe call must be
 // delivered to the current incarnation and answered.
-func rsAdversaryScenario(kind string, calls int, buf uint) func() {
+func rsAdversaryScenario(kind string, calls int, buf uint, timerThread bool) func() {
 	return func() {
 		w := world.New(world.Opts{N: 1, Window: 4, SendBuffer: buf})
 		if w.Cfg == nil {
@@ -233,6 +233,10 @@ func rsAdversaryScenario(kind string, calls int, buf uint) func() {
 		for r := 0; r < 12; r++ {
 			if r == back {
 				mc.GoLow("restart", func() { w.FW.Restart(world.Addr(1)) })
+				if timerThread {
+					// the armed back-off timers expire at an instant of the explorer's choosing as well
+					mc.GoLow("timers", func() { mc.FireTimers(nil) })
+				}
 			}
 			mc.Quiesce()
 			if mc.FireTimers(nil) == 0 && r > back {
@@ -240,7 +244,7 @@ func rsAdversaryScenario(kind string, calls int, buf uint) func() {
 			}
 		}
 		mc.Quiesce()
-		name := fmt.Sprintf("restart-adversary/%s/calls=%d/buf=%d", kind, calls, buf)
+		name := fmt.Sprintf("restart-adversary/%s/calls=%d/buf=%d/timer-thread=%v", kind, calls, buf, timerThread)
 		key := classOf(kind)
 		probe := w.NewCall("GRPCCall")
 		probe.Node = 1
@@ -281,7 +285,12 @@ func rsInstances(tier string) []Instance {
 				if buf == 1 && !thorough(tier) && kind != "Unicast" {
 					continue
 				}
-				out = append(out, Instance{Name: fmt.Sprintf("restart-adversary/%s/calls=%d/buf=%d", kind, calls, buf), Bound: 2, Root: rsAdversaryScenario(kind, calls, buf)})
+				for _, tt := range []bool{false, true} {
+					if tt && calls == 2 && !thorough(tier) {
+						continue
+					}
+					out = append(out, Instance{Name: fmt.Sprintf("restart-adversary/%s/calls=%d/buf=%d/timer-thread=%v", kind, calls, buf, tt), Bound: 2, Root: rsAdversaryScenario(kind, calls, buf, tt)})
+				}
 			}
 		}
 	}
@@ -362,7 +371,7 @@ func rsInstances(tier string) []Instance {
 
 func init() {
 	register(&Check{ID: "C10",
-		Rule:        "fault-sequence enumeration: every script of length <= 4 (5 thorough) over {stop, start, call} that ends with a call, for node 1 initially up or down (down at manager creation included), x call kind {RPC, quorum call on 1 or 2 nodes, unicast} x back-off timers {fired to the horizon after every stop/start, never, or - as a free choice after every event - nothing / only the shortest armed timer / all} x dial mode {non-blocking, blocking}; manager with general and per-node metadata, servers with a connect callback; after each call the script observes at quiescence WITHOUT firing a timer; plus a family in which 1-2 calls are issued during an outage and the node is restarted by an adversary thread at any instant of a script-chosen round (in particular between two steps of a reconnect attempt), after which a probe call must be delivered and answered; oracle: (a) a call issued while the node listens is delivered to its current incarnation, (b) once that incarnation's handler has returned the call has its reply with no back-off timer fired, (c) every accepted stream carries both metadata entries and triggers the connect callback exactly once; all schedules within the deviation bound inside each event; an outcome is (instance, accepted streams, incarnations)",
+		Rule:        "fault-sequence enumeration: every script of length <= 4 (5 thorough) over {stop, start, call} that ends with a call, for node 1 initially up or down (down at manager creation included), x call kind {RPC, quorum call on 1 or 2 nodes, unicast} x back-off timers {fired to the horizon after every stop/start, never, or - as a free choice after every event - nothing / only the shortest armed timer / all} x dial mode {non-blocking, blocking}; manager with general and per-node metadata, servers with a connect callback; after each call the script observes at quiescence WITHOUT firing a timer; plus a family in which 1-2 calls are issued during an outage and the node is restarted by an adversary thread at any instant of a script-chosen round (in particular between two steps of a reconnect attempt), optionally with a second adversary thread that lets the armed back-off timers expire at any instant, after which a probe call must be delivered and answered; oracle: (a) a call issued while the node listens is delivered to its current incarnation, (b) once that incarnation's handler has returned the call has its reply with no back-off timer fired, (c) every accepted stream carries both metadata entries and triggers the connect callback exactly once; all schedules within the deviation bound inside each event; an outcome is (instance, accepted streams, incarnations)",
 		Gen:         rsInstances,
 		Assumptions: []string{"a crash breaks the node's streams immediately (fakegrpc), so the client has noticed the outage at the next quiescent point", "'promptly / never waits out a back-off timer' is decided untimed: no virtual timer is fired between the call and the observation"},
 	})
